@@ -236,6 +236,22 @@ class SpecMixin:
                             and isinstance(body[0].value.value, ast.Name) and body[0].value.value.id == 'self':
                         return self.spec_getattr(st, base, body[0].value.attr, node)
                     raise Unsupported(f'spec: property {name} is not a plain field accessor; use the field', node)
+            if base.cls is None:
+                # class-level constant read through an untyped object: decided by the dynamic class
+                owners = {}
+                for c in self.index.classes.values():
+                    if c.external:
+                        continue
+                    owner, expr = c.lookup_class_attr(name)
+                    if owner is not None and c.lookup(name) is None and not any(name in k.inst_attrs for k in c.mro):
+                        owners.setdefault(owner, []).append(c)
+                if owners:
+                    clt = z3.Select(st.CL, r_of(base.term))
+                    res = self.hload(st, r_of(base.term), name)
+                    for owner, cs in owners.items():
+                        val = self.to_term(st, self.class_attr_value(st, owner, name))
+                        res = z3.If(OR(*[clt == I(c.id) for c in cs]), val, res)
+                    return SV(res)
             val = self.hload(st, r_of(base.term), name)
             st.assume(self.older(st, val))
             hint = self.declared_attr_type(base.cls, name) if base.cls is not None else None
